@@ -34,3 +34,32 @@ def run(op, args):
             from vf.histops import region_op
             return region_op(args)
     raise ValueError(f'unknown op {op}')
+
+
+def parsed_independent(ctx, regs, reparse, tag):
+    """Parsed regions are the caller's to edit: appending to the list-valued
+    metadata (DS9 tags, CRTF range/corr, dashlists) of parsed regions must
+    not show in what a later parse of the same text returns (C13: "parsing a
+    text gives the same regions whatever was parsed before").  ``regs`` is
+    edited - call this last.
+
+    (Not asserted: that two regions of the SAME parse hold distinct list
+    objects - the annuli a multi-radius line expands into share their tag
+    list, and no listed property promises otherwise.)"""
+    from vf.fingerprint import fp
+    regs = list(regs)
+    fps = [fp(r) for r in regs]
+    edits = 0
+    for r in regs:
+        for d in (r.meta, r.visual):
+            for v in list(d.values()):
+                if isinstance(v, list) and 'EDITED' not in v:
+                    v.append('EDITED')
+                    edits += 1
+    if not edits:
+        return
+    ctx.count('parsed_lists_edited', edits)
+    again = [fp(r) for r in reparse()]
+    ctx.check(again == fps,
+              f'{tag} | parsing the same text again after a parsed region was '
+              'edited gives different regions')
